@@ -647,6 +647,9 @@ static void DecodeCMP(Word Index) {
     Byte HReg;
     UNUSED(Index);
 
+    /* byte operation: do not inherit the operand size of an earlier MOVW */
+
+    OpSize = 0;
     if (ChkArgCnt(1, 2)) {
         DecodeAdr(&ArgStr[1], MModAcc | MModDir | MModIIX | MModIEP | MModReg);
         switch (AdrMode) {
